@@ -222,15 +222,18 @@ pub fn observe(input: &[u8], o: &Opts) -> Value {
     let differing: std::cell::RefCell<Option<Vec<u8>>> = std::cell::RefCell::new(None);
     let r = guarded(|| -> Result<Value, Error> {
         let mut written = vec![];
-        pkg.write(&mut written)?;
+        pkg.write(&mut Plain(&mut written))?;
+        if written != input {
+            *differing.borrow_mut() = Some(written.clone());
+        }
         let pkg2 = Package::parse(&mut &written[..])?;
         let reparsed_equal = pkg2.metadata == pkg.metadata && pkg2.content == pkg.content;
         let mut rewritten = vec![];
-        pkg2.write(&mut rewritten)?;
+        pkg2.write(&mut Plain(&mut rewritten))?;
         // the metadata-only entry points must agree with the package ones
         let meta = PackageMetadata::parse(&mut &input[..])?;
         let mut mw = vec![];
-        meta.write(&mut mw)?;
+        meta.write(&mut Plain(&mut mw))?;
         let meta_ok = meta == pkg.metadata && written.len() >= mw.len() && written[..mw.len()] == mw[..]
             && written.len() - mw.len() == pkg.content.len();
         let mut diff = vec![];
@@ -254,9 +257,6 @@ pub fn observe(input: &[u8], o: &Opts) -> Value {
             file_api_equal = opened.metadata == pkg.metadata && opened.content == pkg.content
                 && opened_meta == pkg.metadata && rewritten_file == written;
             let _ = std::fs::remove_dir_all(&dir);
-        }
-        if written != input {
-            *differing.borrow_mut() = Some(written.clone());
         }
         Ok(json!({"written_len": written.len(), "diff": diff, "tail_equal": tail_equal,
                   "reparsed_equal": reparsed_equal && meta_ok && file_api_equal, "rewritten_equal": rewritten == written,
@@ -329,6 +329,8 @@ pub fn observe_all(input: &[u8], o: &Opts) -> Vec<Value> {
             });
             let mut e2 = observe(&bytes, &o2);
             e2.as_object_mut().map(|m| m.remove("written_bytes"));
+            // the payload the writing object holds (the written bytes themselves may not parse)
+            e2["content_len_mem"] = out[0]["content_len"].clone();
             out.push(e2);
         }
     }
